@@ -72,7 +72,11 @@ func TestC06Big(t *testing.T) {
 		for d := 0; d < n; d += 9 {
 			drop.Docs = append(drop.Docs, uint32(d))
 		}
-		drop.Docs = append(drop.Docs, 65535, 65536, uint32(n-1))
+		for _, d := range []uint32{65535, 65536, uint32(n - 1)} {
+			if int(d) < n && int(d)%9 != 0 { // deletion bitmaps only hold existing documents, each once
+				drop.Docs = append(drop.Docs, d)
+			}
+		}
 		p := &spec.MergePlan{ChunkMode: 1026, Children: []spec.MergePlan{
 			{Leaf: bigWide(n, i), Mmap: true},
 			{Leaf: &spec.BatchSpec{Wide: &spec.WideSpec{N: 1100, Period: 2, Every: 0, DV: true}}},
